@@ -2588,6 +2588,22 @@ class StateEngine(object):
                     handle_error(state, error_type, error_message)
                     self.event_dispatcher.acknowledge(id)
                 else:
+                    """
+                    The timer fires some time after the Wait State event was
+                    accepted in notify(), so check again that the Branch or
+                    Iteration that this Wait belongs to has not been terminated
+                    in the meantime by the failure of a peer (e.g. one that was
+                    caught by the Map/Parallel state, whose Branches are only
+                    cancelled lazily). Otherwise the Wait's output would be
+                    treated as a fresh Branch result and complete the join of
+                    a Map/Parallel state that has already failed.
+                    """
+                    if self.branch_has_terminated(
+                        state_type, context, id,
+                        ASL.get("TimeoutSeconds", self.execution_ttl)
+                    ):
+                        return
+
                     try:
                         event["data"] = apply_path(
                             input, context, state.get("OutputPath", "$")
